@@ -146,426 +146,4 @@ def hrun (s : HState K V) : List (Nat × HOp K V) → HState K V
   | [] => s
   | (c, op) :: t => hrun (hstep s c op) t
 
-/-! ### tie G: the four construction sites build new objects -/
-
-theorem record_site_fresh : Gen.recordExtraExpr.aliasFree = true := by decide
-theorem bind_site_fresh : Gen.bindExtraExpr.aliasFree = true := by decide
-theorem ctx_site_fresh : Gen.ctxValueExpr.aliasFree = true := by decide
-theorem patch_site_fresh : Gen.patchListExpr.aliasFree = true := by decide
-theorem configure_copies : Gen.configureCopies = true := by decide
-
-/-- the shape and the operand order regenerated for the functional model are the same expression -/
-theorem record_site_is_layers : Gen.recordExtraExpr = .display Gen.recordLayers := by decide
-theorem bind_site_is_operands : Gen.bindExtraExpr = .display Gen.bindOperands := by decide
-theorem ctx_site_is_operands : Gen.ctxValueExpr = .display Gen.ctxOperands := by decide
-
-/-! ### cells -/
-
-theorem cell_append_lt (h : Cells K V) (x : Cells K V) (r : Nat) (hr : r < h.length) :
-    cell (h ++ x) r = cell h r := by
-  simp [cell, List.getD_eq_getElem?_getD, List.getElem?_append_left hr]
-
-theorem cell_append_len (h : Cells K V) (d : Assoc K V) : cell (h ++ [d]) h.length = d := by
-  simp [cell, List.getD_eq_getElem?_getD]
-
-theorem cell_set_ne (h : Cells K V) (r r' : Nat) (d : Assoc K V) (hne : r' ≠ r) :
-    cell (h.set r' d) r = cell h r := by
-  simp [cell, List.getD_eq_getElem?_getD, List.getElem?_set_ne hne]
-
-theorem cell_set_eq (h : Cells K V) (r : Nat) (d : Assoc K V) (hr : r < h.length) :
-    cell (h.set r d) r = d := by
-  simp [cell, List.getD_eq_getElem?_getD, hr]
-
-/-! ### what one operation can write to -/
-
-/-- the caller can reach it: a dict it owns, or the `extra` of a record it was handed -/
-def External (s : HState K V) (r : Nat) : Prop := r ∈ s.owned ∨ r ∈ s.records
-
-/-- an existing object that is neither `core.extra` nor reachable by the caller -/
-def Quiet (s : HState K V) (r : Nat) : Prop := r < s.heap.length ∧ r ≠ s.core ∧ ¬ External s r
-
-/-- ONE operation – of loguru, of a patcher, of a sink, of the caller – never writes to a quiet object, and a
-quiet object stays quiet: loguru writes only to `core.extra` (configure) and to objects it has just allocated;
-patchers, sinks and the caller can only write to what they can reach. -/
-theorem quiet_step (s : HState K V) (c : Nat) (op : HOp K V) (r : Nat) (hq : Quiet s r) :
-    Quiet (hstep s c op) r ∧ cell (hstep s c op).heap r = cell s.heap r := by
-  obtain ⟨hlt, hcore, hext⟩ := hq
-  have hext' : r ∉ s.owned ∧ r ∉ s.records := by
-    constructor <;> intro h <;> exact hext (by simp [External, h])
-  cases op with
-  | alloc d =>
-    refine ⟨⟨by simp [hstep]; omega, hcore, ?_⟩, cell_append_lt _ _ _ hlt⟩
-    simp only [hstep, External, List.mem_append, List.mem_singleton, not_or]
-    exact ⟨⟨hext'.1, by omega⟩, hext'.2⟩
-  | configure r' =>
-    simp only [hstep, configure_copies, if_true]
-    split
-    · exact ⟨⟨by simpa using hlt, hcore, hext⟩, cell_set_ne _ _ _ _ (Ne.symm hcore)⟩
-    · exact ⟨⟨hlt, hcore, hext⟩, rfl⟩
-  | bind l kw g =>
-    simp only [hstep]
-    split
-    · exact ⟨⟨hlt, hcore, hext⟩, rfl⟩
-    · next cap b hl =>
-      obtain ⟨d, hd⟩ := eval_aliasFree mergeAll (s.heap ++ [kw]) (srcEnv b s.heap.length) _ bind_site_fresh g
-      simp only [hd]
-      refine ⟨⟨by simp; omega, hcore, hext⟩, ?_⟩
-      rw [cell_append_lt _ _ _ (by simp; omega), cell_append_lt _ _ _ hlt]
-  | opt l cap =>
-    simp only [hstep]
-    split <;> exact ⟨⟨hlt, hcore, hext⟩, rfl⟩
-  | enter kw g =>
-    simp only [hstep]
-    obtain ⟨d, hd⟩ := eval_aliasFree mergeAll (s.heap ++ [kw]) (srcEnv (current s c) s.heap.length) _ ctx_site_fresh g
-    simp only [hd]
-    refine ⟨⟨by simp; omega, hcore, hext⟩, ?_⟩
-    rw [cell_append_lt _ _ _ (by simp; omega), cell_append_lt _ _ _ hlt]
-  | exit => exact ⟨⟨hlt, hcore, hext⟩, rfl⟩
-  | spawn copy => exact ⟨⟨hlt, hcore, hext⟩, rfl⟩
-  | log l kw pf g =>
-    simp only [hstep]
-    split
-    · exact ⟨⟨hlt, hcore, hext⟩, rfl⟩
-    · next cap b hl =>
-      obtain ⟨d, hd⟩ := eval_aliasFree mergeAll s.heap (layerEnv s.core (current s c) b) _ record_site_fresh g
-      simp only [hd]
-      refine ⟨⟨by simp; omega, hcore, ?_⟩, ?_⟩
-      · simp only [External, List.mem_append, List.mem_singleton, not_or]
-        exact ⟨hext'.1, hext'.2, by omega⟩
-      · rw [cell_set_ne _ _ _ _ (by omega), cell_append_lt _ _ _ hlt]
-  | mutate r' f =>
-    simp only [hstep]
-    split
-    · next h =>
-      have hne : r' ≠ r := by
-        intro e; subst e; exact hext h
-      exact ⟨⟨by simpa using hlt, hcore, hext⟩, cell_set_ne _ _ _ _ hne⟩
-    · exact ⟨⟨hlt, hcore, hext⟩, rfl⟩
-
-/-- … and so for every trace -/
-theorem quiet_run (t : List (Nat × HOp K V)) (s : HState K V) (r : Nat) (hq : Quiet s r) :
-    Quiet (hrun s t) r ∧ cell (hrun s t).heap r = cell s.heap r := by
-  induction t generalizing s with
-  | nil => exact ⟨hq, rfl⟩
-  | cons e t ih =>
-    obtain ⟨h1, h2⟩ := quiet_step s e.1 e.2 r hq
-    obtain ⟨h3, h4⟩ := ih (hstep s e.1 e.2) h1
-    exact ⟨h3, h4.trans h2⟩
-
-/-! ### separation: what loguru shares internally is out of the caller's reach -/
-
-/-- the objects loguru treats as immutable and shares freely: the ContextVar's default, every value the
-variable holds or will be reset to, the bound `extra` of every logger -/
-def Shared (s : HState K V) (r : Nat) : Prop :=
-  r = s.dflt ∨ (∃ c, r = s.base c) ∨ (∃ c, r ∈ s.blocks c) ∨ (∃ p ∈ s.loggers, r = p.2)
-
-structure Sep (s : HState K V) : Prop where
-  sharedLt : ∀ r, Shared s r → r < s.heap.length
-  coreLt : s.core < s.heap.length
-  extLt : ∀ r, External s r → r < s.heap.length
-  sharedNotCore : ∀ r, Shared s r → r ≠ s.core
-  sharedNotExt : ∀ r, Shared s r → ¬ External s r
-  coreNotExt : ¬ External s s.core
-
-theorem sep_init : Sep (hinit : HState K V) := by
-  constructor
-  · intro r h; rcases h with h | ⟨c, h⟩ | ⟨c, h⟩ | ⟨p, hp, h⟩ <;> simp_all [hinit]
-  · simp [hinit]
-  · intro r h; rcases h with h | h <;> simp_all [hinit]
-  · intro r h; rcases h with h | ⟨c, h⟩ | ⟨c, h⟩ | ⟨p, hp, h⟩ <;> simp_all [hinit]
-  · intro r _ h; rcases h with h | h <;> simp_all [hinit]
-  · intro h; rcases h with h | h <;> simp_all [hinit]
-
-theorem current_shared (s : HState K V) (c : Nat) : Shared s (current s c) := by
-  unfold current
-  cases h : s.blocks c with
-  | nil => exact Or.inr (Or.inl ⟨c, rfl⟩)
-  | cons x xs => exact Or.inr (Or.inr (Or.inl ⟨c, by simp [h]⟩))
-
-theorem shared_quiet (s : HState K V) (hS : Sep s) (r : Nat) (h : Shared s r) : Quiet s r :=
-  ⟨hS.sharedLt r h, hS.sharedNotCore r h, hS.sharedNotExt r h⟩
-
-/-- a shared object of the new state is a shared object of the old one or the freshly allocated `n` -/
-private theorem sep_of (s s' : HState K V) (hS : Sep s) (n : Nat)
-    (_hlen : s.heap.length ≤ s'.heap.length) (hn : s.heap.length ≤ n ∧ n < s'.heap.length)
-    (hcore : s'.core = s.core)
-    (hsh : ∀ r, Shared s' r → Shared s r ∨ r = n)
-    (hex : ∀ r, External s' r → External s r) : Sep s' := by
-  constructor
-  · intro r h; rcases hsh r h with h | h
-    · have := hS.sharedLt r h; omega
-    · omega
-  · rw [hcore]; have := hS.coreLt; omega
-  · intro r h; have := hS.extLt r (hex r h); omega
-  · intro r h; rw [hcore]; rcases hsh r h with h | h
-    · exact hS.sharedNotCore r h
-    · have := hS.coreLt; omega
-  · intro r h he; rcases hsh r h with h | h
-    · exact hS.sharedNotExt r h (hex r he)
-    · have := hS.extLt r (hex r he); omega
-  · rw [hcore]; intro he; exact hS.coreNotExt (hex _ he)
-
-theorem sep_step (s : HState K V) (c : Nat) (op : HOp K V) (hS : Sep s) : Sep (hstep s c op) := by
-  cases op with
-  | alloc d =>
-    simp only [hstep]
-    constructor
-    · intro r h; have := hS.sharedLt r h; simp; omega
-    · have := hS.coreLt; simp; omega
-    · intro r h
-      simp only [External, List.mem_append, List.mem_singleton] at h
-      rcases h with (h | h) | h
-      · have := hS.extLt r (Or.inl h); simp; omega
-      · simp; omega
-      · have := hS.extLt r (Or.inr h); simp; omega
-    · exact hS.sharedNotCore
-    · intro r h he
-      simp only [External, List.mem_append, List.mem_singleton] at he
-      rcases he with (he | he) | he
-      · exact hS.sharedNotExt r h (Or.inl he)
-      · have := hS.sharedLt r h; omega
-      · exact hS.sharedNotExt r h (Or.inr he)
-    · intro he
-      simp only [External, List.mem_append, List.mem_singleton] at he
-      rcases he with (he | he) | he
-      · exact hS.coreNotExt (Or.inl he)
-      · have := hS.coreLt; omega
-      · exact hS.coreNotExt (Or.inr he)
-  | configure r' =>
-    simp only [hstep, configure_copies, if_true]
-    split
-    · exact ⟨fun r h => by simpa using hS.sharedLt r h, by simpa using hS.coreLt,
-        fun r h => by simpa using hS.extLt r h, hS.sharedNotCore, hS.sharedNotExt, hS.coreNotExt⟩
-    · exact hS
-  | bind l kw g =>
-    simp only [hstep]
-    split
-    · exact hS
-    · next cap b hl =>
-      obtain ⟨d, hd⟩ := eval_aliasFree mergeAll (s.heap ++ [kw]) (srcEnv b s.heap.length) _ bind_site_fresh g
-      simp only [hd]
-      refine sep_of s _ hS (s.heap.length + 1) (by simp) (by simp) rfl ?_ (fun r h => h)
-      intro r h
-      rcases h with h | h | h | ⟨p, hp, h⟩
-      · exact Or.inl (Or.inl h)
-      · exact Or.inl (Or.inr (Or.inl h))
-      · exact Or.inl (Or.inr (Or.inr (Or.inl h)))
-      · simp only [List.mem_append, List.mem_singleton] at hp
-        rcases hp with hp | hp
-        · exact Or.inl (Or.inr (Or.inr (Or.inr ⟨p, hp, h⟩)))
-        · subst hp; right; simpa using h
-  | opt l cap =>
-    simp only [hstep]
-    split
-    · exact hS
-    · next x b hl =>
-      have hb : Shared s b := Or.inr (Or.inr (Or.inr ⟨(x, b), List.mem_of_getElem? hl, rfl⟩))
-      refine ⟨?_, hS.coreLt, hS.extLt, ?_, ?_, hS.coreNotExt⟩ <;>
-      · intro r h
-        have : Shared s r := by
-          rcases h with h | h | h | ⟨p, hp, h⟩
-          · exact Or.inl h
-          · exact Or.inr (Or.inl h)
-          · exact Or.inr (Or.inr (Or.inl h))
-          · simp only [List.mem_append, List.mem_singleton] at hp
-            rcases hp with hp | hp
-            · exact Or.inr (Or.inr (Or.inr ⟨p, hp, h⟩))
-            · subst hp; simp at h; subst h; exact hb
-        first | exact hS.sharedLt r this | exact hS.sharedNotCore r this | exact hS.sharedNotExt r this
-  | enter kw g =>
-    simp only [hstep]
-    obtain ⟨d, hd⟩ := eval_aliasFree mergeAll (s.heap ++ [kw]) (srcEnv (current s c) s.heap.length) _ ctx_site_fresh g
-    simp only [hd]
-    refine sep_of s _ hS (s.heap.length + 1) (by simp) (by simp) rfl ?_ (fun r h => h)
-    intro r h
-    rcases h with h | h | ⟨c', h⟩ | h
-    · exact Or.inl (Or.inl h)
-    · exact Or.inl (Or.inr (Or.inl h))
-    · by_cases hc : c' = c
-      · subst hc
-        simp only [if_true, List.mem_cons] at h
-        rcases h with h | h
-        · right; simpa using h
-        · exact Or.inl (Or.inr (Or.inr (Or.inl ⟨c', h⟩)))
-      · simp only [hc, if_false] at h
-        exact Or.inl (Or.inr (Or.inr (Or.inl ⟨c', h⟩)))
-    · exact Or.inl (Or.inr (Or.inr (Or.inr h)))
-  | exit =>
-    simp only [hstep]
-    have sub : ∀ r, Shared ({ s with blocks := fun c' => if c' = c then (s.blocks c).tail else s.blocks c' } : HState K V) r →
-        Shared s r := by
-      intro r h
-      rcases h with h | h | ⟨c', h⟩ | h
-      · exact Or.inl h
-      · exact Or.inr (Or.inl h)
-      · by_cases hc : c' = c
-        · subst hc; simp only [if_true] at h
-          exact Or.inr (Or.inr (Or.inl ⟨c', List.mem_of_mem_tail h⟩))
-        · simp only [hc, if_false] at h
-          exact Or.inr (Or.inr (Or.inl ⟨c', h⟩))
-      · exact Or.inr (Or.inr (Or.inr h))
-    exact ⟨fun r h => hS.sharedLt r (sub r h), hS.coreLt, hS.extLt, fun r h => hS.sharedNotCore r (sub r h),
-      fun r h => hS.sharedNotExt r (sub r h), hS.coreNotExt⟩
-  | spawn copy =>
-    simp only [hstep]
-    have hcur := current_shared s c
-    have sub : ∀ r, Shared ({ s with
-        base := fun c' => if c' = s.nctx then (if copy then current s c else s.dflt) else s.base c',
-        blocks := fun c' => if c' = s.nctx then [] else s.blocks c', nctx := s.nctx + 1 } : HState K V) r →
-        Shared s r := by
-      intro r h
-      rcases h with h | ⟨c', h⟩ | ⟨c', h⟩ | h
-      · exact Or.inl h
-      · by_cases hc : c' = s.nctx
-        · simp only [hc, if_true] at h
-          cases copy
-          · simp at h; exact Or.inl h
-          · simp at h; rw [h]; exact hcur
-        · simp only [hc, if_false] at h
-          exact Or.inr (Or.inl ⟨c', h⟩)
-      · by_cases hc : c' = s.nctx
-        · simp [hc] at h
-        · simp only [hc, if_false] at h
-          exact Or.inr (Or.inr (Or.inl ⟨c', h⟩))
-      · exact Or.inr (Or.inr (Or.inr h))
-    exact ⟨fun r h => hS.sharedLt r (sub r h), hS.coreLt, hS.extLt, fun r h => hS.sharedNotCore r (sub r h),
-      fun r h => hS.sharedNotExt r (sub r h), hS.coreNotExt⟩
-  | log l kw pf g =>
-    simp only [hstep]
-    split
-    · exact hS
-    · next cap b hl =>
-      obtain ⟨d, hd⟩ := eval_aliasFree mergeAll s.heap (layerEnv s.core (current s c) b) _ record_site_fresh g
-      simp only [hd]
-      constructor
-      · intro r h; have := hS.sharedLt r h; simp; omega
-      · have := hS.coreLt; simp; omega
-      · intro r h
-        simp only [External, List.mem_append, List.mem_singleton] at h
-        rcases h with h | h | h
-        · have := hS.extLt r (Or.inl h); simp; omega
-        · have := hS.extLt r (Or.inr h); simp; omega
-        · simp; omega
-      · exact hS.sharedNotCore
-      · intro r h he
-        simp only [External, List.mem_append, List.mem_singleton] at he
-        rcases he with he | he | he
-        · exact hS.sharedNotExt r h (Or.inl he)
-        · exact hS.sharedNotExt r h (Or.inr he)
-        · have := hS.sharedLt r h; omega
-      · intro he
-        simp only [External, List.mem_append, List.mem_singleton] at he
-        rcases he with he | he | he
-        · exact hS.coreNotExt (Or.inl he)
-        · exact hS.coreNotExt (Or.inr he)
-        · have := hS.coreLt; omega
-  | mutate r' f =>
-    simp only [hstep]
-    split
-    · exact ⟨fun r h => by simpa using hS.sharedLt r h, by simpa using hS.coreLt,
-        fun r h => by simpa using hS.extLt r h, hS.sharedNotCore, hS.sharedNotExt, hS.coreNotExt⟩
-    · exact hS
-
-theorem sep_run (t : List (Nat × HOp K V)) (s : HState K V) (hS : Sep s) : Sep (hrun s t) := by
-  induction t generalizing s with
-  | nil => exact hS
-  | cons e t ih => exact ih _ (sep_step s e.1 e.2 hS)
-
-/-- the list of loggers only grows -/
-theorem loggers_grow (t : List (Nat × HOp K V)) (s : HState K V) :
-    ∃ new, (hrun s t).loggers = s.loggers ++ new := by
-  induction t generalizing s with
-  | nil => exact ⟨[], by simp [hrun]⟩
-  | cons e t ih =>
-    obtain ⟨n2, h2⟩ := ih (hstep s e.1 e.2)
-    have h1 : ∃ n1, (hstep s e.1 e.2).loggers = s.loggers ++ n1 := by
-      rcases e with ⟨c, op⟩
-      cases op with
-      | bind l kw g =>
-        simp only [hstep]; split
-        · exact ⟨[], by simp⟩
-        · exact ⟨_, rfl⟩
-      | opt l cap =>
-        simp only [hstep]; split
-        · exact ⟨[], by simp⟩
-        · exact ⟨_, rfl⟩
-      | log l kw pf g => simp only [hstep]; split <;> exact ⟨[], by simp⟩
-      | configure r =>
-        simp only [hstep]; split
-        · split <;> exact ⟨[], by simp⟩
-        · exact ⟨[], by simp⟩
-      | mutate r f => simp only [hstep]; split <;> exact ⟨[], by simp⟩
-      | alloc d => exact ⟨[], by simp [hstep]⟩
-      | enter kw g => exact ⟨[], by simp [hstep]⟩
-      | exit => exact ⟨[], by simp [hstep]⟩
-      | spawn copy => exact ⟨[], by simp [hstep]⟩
-    obtain ⟨n1, h1⟩ := h1
-    exact ⟨n1 ++ n2, by simp only [hrun]; rw [h2, h1, List.append_assoc]⟩
-
-/-- a delivered record is written to only by whoever was handed it: as long as the caller does not
-itself mutate record `r`, no operation changes it (and it stays a record) -/
-def NoMutate (r : Nat) : List (Nat × HOp K V) → Prop
-  | [] => True
-  | (_, .mutate r' _) :: t => r' ≠ r ∧ NoMutate r t
-  | _ :: t => NoMutate r t
-
-theorem record_step (s : HState K V) (c : Nat) (op : HOp K V) (hS : Sep s) (r : Nat) (hr : r ∈ s.records)
-    (hop : ∀ r' f, op = .mutate r' f → r' ≠ r) :
-    r ∈ (hstep s c op).records ∧ cell (hstep s c op).heap r = cell s.heap r := by
-  have hlt : r < s.heap.length := hS.extLt r (Or.inr hr)
-  have hcore : s.core ≠ r := fun e => hS.coreNotExt (Or.inr (e ▸ hr))
-  cases op with
-  | alloc d => exact ⟨hr, cell_append_lt _ _ _ hlt⟩
-  | configure r' =>
-    simp only [hstep, configure_copies, if_true]
-    split
-    · exact ⟨hr, cell_set_ne _ _ _ _ hcore⟩
-    · exact ⟨hr, rfl⟩
-  | bind l kw g =>
-    simp only [hstep]
-    split
-    · exact ⟨hr, rfl⟩
-    · next cap b hl =>
-      obtain ⟨d, hd⟩ := eval_aliasFree mergeAll (s.heap ++ [kw]) (srcEnv b s.heap.length) _ bind_site_fresh g
-      simp only [hd]
-      refine ⟨hr, ?_⟩
-      rw [cell_append_lt _ _ _ (by simp; omega), cell_append_lt _ _ _ hlt]
-  | opt l cap => simp only [hstep]; split <;> exact ⟨hr, rfl⟩
-  | enter kw g =>
-    simp only [hstep]
-    obtain ⟨d, hd⟩ := eval_aliasFree mergeAll (s.heap ++ [kw]) (srcEnv (current s c) s.heap.length) _ ctx_site_fresh g
-    simp only [hd]
-    refine ⟨hr, ?_⟩
-    rw [cell_append_lt _ _ _ (by simp; omega), cell_append_lt _ _ _ hlt]
-  | exit => exact ⟨hr, rfl⟩
-  | spawn copy => exact ⟨hr, rfl⟩
-  | log l kw pf g =>
-    simp only [hstep]
-    split
-    · exact ⟨hr, rfl⟩
-    · next cap b hl =>
-      obtain ⟨d, hd⟩ := eval_aliasFree mergeAll s.heap (layerEnv s.core (current s c) b) _ record_site_fresh g
-      simp only [hd]
-      refine ⟨by simp [hr], ?_⟩
-      rw [cell_set_ne _ _ _ _ (by omega), cell_append_lt _ _ _ hlt]
-  | mutate r' f =>
-    simp only [hstep]
-    split
-    · exact ⟨hr, cell_set_ne _ _ _ _ (hop r' f rfl)⟩
-    · exact ⟨hr, rfl⟩
-
-theorem record_run (t : List (Nat × HOp K V)) (s : HState K V) (hS : Sep s) (r : Nat) (hr : r ∈ s.records)
-    (hn : NoMutate r t) : r ∈ (hrun s t).records ∧ cell (hrun s t).heap r = cell s.heap r := by
-  induction t generalizing s with
-  | nil => exact ⟨hr, rfl⟩
-  | cons e t ih =>
-    rcases e with ⟨c, op⟩
-    have hop : ∀ r' f, op = .mutate r' f → r' ≠ r := by
-      intro r' f e; subst e; exact hn.1
-    have hn' : NoMutate r t := by
-      cases op <;> first | exact hn | exact hn.2
-    obtain ⟨h1, h2⟩ := record_step s c op hS r hr hop
-    obtain ⟨h3, h4⟩ := ih (hstep s c op) (sep_step s c op hS) h1 hn'
-    exact ⟨h3, h4.trans h2⟩
-
 end Context.Heap
